@@ -436,6 +436,9 @@ theorem step_sv (hc : c.Adm) {s : State} (h : SV c s.store) (t : Nat) (op : Op) 
   | unwrap token => exact unwrap_sv h token
   | undelegateCascade p ch => exact undelegateCascade_sv hc h p ch
   | reopen => exact reopen_sv hc h t
+  | probe req sec need me =>
+    simp only [step]; unfold State.probe
+    exact guarded_sv hc h (fun s' hs' => by split <;> exact hs')
 
 theorem run_sv (hc : c.Adm) : ∀ (h : List (Nat × Op)) (s : State), SV c s.store → SV c (run s h).store
   | [], _, hs => hs
